@@ -262,7 +262,7 @@ def to_tla(t):
 
 
 FUNCS = ['SUM', 'IF', 'LEN', 'CONCAT', 'MAX', 'PI', 'NA', 'ABS', 'CHOOSE', 'LEFT', 'AND', 'VLOOKUP']
-SHEETS = ['', '', 'Sheet2', 'S 2', "O'x", 'Data 2']
+SHEETS = ['', '', 'Sheet2', 'S 2', "O'x", 'Data 2', '2024', '1st Q', 'TRUE1']
 STRCH = '"\'!#%(),:;[]{} aA1\u00e9=+-<>&*/^$@.'
 
 
